@@ -56,6 +56,8 @@ def reachable(fx, root_ids):
                 seen.add(n['id']); st.append(n['id'])
             elif k == 'ref' and n.get('d') == 'func' and n.get('id') and n['id'] not in seen:
                 seen.add(n['id']); st.append(n['id'])
+            elif k == 'decl' and isinstance(n.get('dtor'), str) and n['dtor'] not in seen:
+                seen.add(n['dtor']); st.append(n['dtor'])      # user-declared destructor of a local runs when its scope is left
     return seen
 
 
@@ -103,6 +105,52 @@ def run(src, tier, seed):
                 res.bad(r, 'terminate:%s:%s' % (f['name'], t), fx.loc(f), '%s escapes noexcept %s' % (t, f['name']), E.chain(i, t))
         else:
             res.ok(r, f['name'])
+    # ---- R3b the let-binding log stays balanced (precondition of the .at() in the noexcept scope guard)
+    r = res.rule('let-log-balance', 'LetRecords::popFrame runs inside a noexcept scope-guard destructor and looks every logged binder up with .at(): '
+                 'each logged binding must have created exactly one undoable record (a new map entry or one shadow value) and each undo must remove exactly one', floor=5)
+    from prims import must_call, is_call, mname
+    from facts import recv_path, path_of
+    dtors_reaching = [fx.F[i]['name'] for i in nex if any(is_call(n, 'popFrame') for n in fwalk(fx.F[i]))]
+    if not dtors_reaching:
+        raise AnalysisBroken('no noexcept function calls LetRecords::popFrame any more: the let scope guard moved')
+    av = fx.func('opensmt::LetBinder::addValue')
+    exits, eng = must_call(av, {'push': lambda n: is_call(n, 'push', 'this.shadowedValues') or is_call(n, 'push_back', 'this.shadowedValues')})
+    if [1 for k, nd, st in exits if k != 'throw' and 'push' not in st]:
+        res.bad(r, 'let-log:addValue-conditional-push', fx.loc(av), 'LetBinder::addValue can return without pushing the shadowed value, but LetRecords::addBinding logs the binder '
+                'unconditionally: popFrame then undoes one level too many, erases the outer binding and the enclosing frame\'s letBinders.at() throws inside the noexcept guard')
+    else:
+        res.ok(r, 'LetBinder::addValue pushes a shadow value on every path')
+    ab = fx.func('opensmt::LetRecords::addBinding')
+    KEYC = ('insert', 'emplace', 'try_emplace', 'operator[]', 'insert_or_assign')
+    exits, eng = must_call(ab, {'log': lambda n: is_call(n, 'push_back', 'this.knownBinders') or is_call(n, 'emplace_back', 'this.knownBinders'),
+                                'new': lambda n: n.get('k') == 'call' and mname(n) in KEYC and recv_path(n) == 'this.letBinders',
+                                'shadow': lambda n: is_call(n, 'addValue')})
+    bad = [st for k, nd, st in exits if k != 'throw' and not ('log' in st and (('new' in st) != ('shadow' in st)))]
+    if bad:
+        res.bad(r, 'let-log:addBinding-unbalanced', fx.loc(ab), 'LetRecords::addBinding has a path with %s: the binder log and the undoable records get out of step' % sorted(set(map(lambda x: tuple(sorted(x)), bad))))
+    else:
+        res.ok(r, 'LetRecords::addBinding: one log entry and exactly one of (new map entry, shadow value) on every path')
+    rs = fx.func('opensmt::LetBinder::restoreShadowedValue')
+    if any(is_call(n, 'pop', 'this.shadowedValues') or is_call(n, 'pop_back', 'this.shadowedValues') for n in fwalk(rs)):
+        res.ok(r, 'LetBinder::restoreShadowedValue pops one shadow value')
+    else:
+        res.bad(r, 'let-log:restore-no-pop', fx.loc(rs), 'LetBinder::restoreShadowedValue no longer pops the shadow stack')
+    pf = fx.func('opensmt::LetRecords::popFrame')
+    loops = [n for n in walk(pf['body']) if n.get('k') == 'loop']
+    okpf = False
+    for lp in loops:
+        pops = [n for n in walk(lp['body']) if is_call(n, 'pop_back', 'this.knownBinders')]
+        ifs = [n for n in walk(lp['body']) if n.get('k') == 'if' and not n.get('as') and any(is_call(x, 'hasShadowValue') for x in walk(n['cond']))]
+        if pops and ifs:
+            i0 = ifs[0]
+            t_restore = any(is_call(x, 'restoreShadowedValue') for x in walk(i0['then'])) and not any(is_call(x, 'erase') for x in walk(i0['then']))
+            e_erase = i0.get('else') and any(is_call(x, 'erase', 'this.letBinders') for x in walk(i0['else'])) and not any(is_call(x, 'restoreShadowedValue') for x in walk(i0['else']))
+            okpf = bool(t_restore and e_erase)
+    if okpf:
+        res.ok(r, 'LetRecords::popFrame: per logged binder, restore the shadow value if there is one, else erase the entry')
+    else:
+        res.bad(r, 'let-log:popFrame-unbalanced', fx.loc(pf), 'LetRecords::popFrame no longer undoes exactly one record per logged binder')
+    res.ok(r, 'noexcept callers of popFrame: %s' % dtors_reaching)
     # ---- R4 results never discarded
     r = res.rule('result-dropped', 'the int result of Interpret::interpFile / osmt_yyparse must be used (not a discarded expression statement)', floor=3)
     for i in reach:
